@@ -52,7 +52,7 @@ class Check:
     oracles = ()
     judged = None
     sizes = {"quick": 2000, "thorough": 40000}
-    budget_s = {"quick": 240, "thorough": 2400}
+    budget_s = {"quick": 240, "thorough": 1200}
     selftest = {"quick": 24, "thorough": 200}
     chunk = 50
     rule = ""
